@@ -36,6 +36,10 @@ class Bd:
     name: Any = "a"
     size: Any = 1
     kind: Any = "k"
+    label: Any = field(init=False, default=None)    # not an __init__ parameter: filled in below, still a field to constrain
+
+    def __post_init__(self):
+        self.label = f"{self.name}{self.size}"
 
 
 @symbol
@@ -62,16 +66,18 @@ class Other:
     size = 1
     kind = "k"
     tag = "t"
+    label = "a1"
     parent = None
     child = None
     w = 1
 
 
 CLS = {"Bd": Bd, "Hd": Hd, "Hd2": Hd2, "Cn": Cn}
-FIELDS = {"Bd": ["name", "size", "kind", "tag"], "Hd": ["name", "size", "kind", "tag"], "Hd2": ["name", "size", "kind", "tag"],
+FIELDS = {"Bd": ["name", "size", "kind", "tag", "label"], "Hd": ["name", "size", "kind", "tag", "label"],
+          "Hd2": ["name", "size", "kind", "tag", "label"],
           "Cn": ["parent", "child", "w"]}
 POSITIONAL = {"Bd": 3, "Hd": 3, "Hd2": 3, "Cn": 3}      # how many leading fields may be given positionally
-VALS = {"name": ["a", "b", "c"], "size": [1, 2, 3], "kind": ["k", "m", None], "w": [1, 2], "tag": ["t", "u", "a"]}
+VALS = {"label": ["a1", "b2", "a2", "c3"], "name": ["a", "b", "c"], "size": [1, 2, 3], "kind": ["k", "m", None], "w": [1, 2], "tag": ["t", "u", "a"]}
 
 
 def plan(tier, seed):
@@ -84,7 +90,8 @@ def floors(tier):
             "cls:target:Cn": 300, "cls:positional": 300, "cls:value:const": 500, "cls:value:var": 100,
             "cls:value:term": 150, "cls:container:tuple": 100, "cls:container:gen": 100, "cls:container:single": 50,
             "cls:decl:let": 100, "cls:decl:from": 500, "cls:decl:an_term": 100, "cls:type_filter_needed": 800,
-            "cls:domain_without_instances_of_the_type": 150, "cls:requery_after_domain_list_changed": 100}
+            "cls:domain_without_instances_of_the_type": 150, "cls:requery_after_domain_list_changed": 100,
+            "cls:two_terms_of_one_class_selected_together": 200}
 
 
 def gen_case(rng):
@@ -298,6 +305,36 @@ def check_case(case, ctx):
             ctx.fail("REQUERY_AFTER_DOMAIN_CHANGE", {"change": how, "expected_positions": [ids2[id(o)] for o in exp2],
                                                      "observed_positions": [ids2.get(id(o), "?") for o in second],
                                                      "first_query_rows": len(first)})
+    consts = {f: v[1] for f, v in case["fields"] if v[0] == "const"}
+    if len(consts) >= 2 and case["container"] in ("list", "tuple") and got["predicate"] == e:
+        # two predicate-form terms of the SAME class, each with its own field constraints, selected together; and one From
+        # object given to two terms
+        from entity_query_language import symbolic_mode, an, set_of, entity, From
+        ctx.cls("cls:two_terms_of_one_class_selected_together")
+        names = list(consts)
+        kw1, kw2 = {names[0]: consts[names[0]]}, {n_: consts[n_] for n_ in names[1:]}
+        s1 = [o for o in dom if isinstance(o, T) and all(getattr(o, f) == v for f, v in kw1.items())]
+        s2 = [o for o in dom if isinstance(o, T) and all(getattr(o, f) == v for f, v in kw2.items())]
+        try:
+            with symbolic_mode():
+                t1, t2 = T(From(list(dom)), **kw1), T(From(list(dom)), **kw2)
+                q2 = an(set_of([t1, t2]))
+            pairs = sorted((ids.get(id(r[t1]), "?"), ids.get(id(r[t2]), "?")) for r in q2.evaluate())
+            with symbolic_mode():
+                src = From(list(dom))
+                u1, u2 = T(src, **kw1), T(src, **kw2)
+                qa, qb = an(entity(u1)), an(entity(u2))
+            ra = [ids.get(id(o), "?") for o in qa.evaluate()]
+            rb = [ids.get(id(o), "?") for o in qb.evaluate()]
+        except Exception as ex:
+            ctx.fail("EXC", f"two terms of one class: {type(ex).__name__}: {ex}")
+            return
+        want_pairs = sorted((ids[id(a_)], ids[id(b_)]) for a_ in s1 for b_ in s2)
+        if pairs != want_pairs:
+            ctx.fail("TWO_TERMS_OF_ONE_CLASS", {"constraints": [kw1, kw2], "expected_pairs": want_pairs[:10], "observed_pairs": pairs[:10],
+                                                "n_expected": len(want_pairs), "n_observed": len(pairs)})
+        elif ra != enc(s1) or rb != enc(s2):
+            ctx.fail("ONE_FROM_OBJECT_FOR_TWO_TERMS", {"constraints": [kw1, kw2], "expected": [enc(s1), enc(s2)], "observed": [ra, rb]})
     if got["predicate"] != e:
         ctx.fail("PREDICATE_FORM_VS_ORACLE", {"expected": e, "predicate_form": got["predicate"], "explicit_form": got["explicit"]})
     elif got["explicit"] != e:
